@@ -405,7 +405,27 @@ func (x *c17pair) kinds(fi *FuncInfo, e ast.Expr, isFn bool, busy map[types.Obje
 		return out
 	}
 	if f := c17fieldOf(info, e); f != nil {
-		base := exprStr(ast.Unparen(e).(*ast.SelectorExpr).X)
+		bx := ast.Unparen(ast.Unparen(e).(*ast.SelectorExpr).X)
+		// a local assigned once from a field path (`cl := call.cl`) denotes the holder it was read from
+		for d := 0; d < 2; d++ {
+			id, ok := bx.(*ast.Ident)
+			if !ok {
+				break
+			}
+			lo, ok := info.Uses[id].(*types.Var)
+			if !ok || lo.IsField() {
+				break
+			}
+			as := cgxAssignsTo(info, fi.Decl.Body, lo)
+			if len(as) != 1 || as[0].Rhs == nil {
+				break
+			}
+			if _, isSel := ast.Unparen(as[0].Rhs).(*ast.SelectorExpr); !isSel {
+				break
+			}
+			bx = ast.Unparen(as[0].Rhs)
+		}
+		base := exprStr(bx)
 		switch {
 		case isFn && f == x.clFn, !isFn && f == x.clVars:
 			out["callable "+base] = true
